@@ -62,7 +62,7 @@ def lzmaDecEstimate (dict lc lp : Nat) : Option Nat :=
 
 /-- `lzma2_get_memory_usage(dict)` -/
 def lzma2DecEstimate (dict : Nat) : Nat :=
-  40 + Consts.R_COMPRESSED_SIZE_MAX / 1024 + ((min dict Consts.DICT_SIZE_MAX + 15) / 16 * 16) / 1024
+  40 + Consts.R_COMPRESSED_SIZE_MAX / 1024 + ((max (min dict Consts.DICT_SIZE_MAX) Consts.DICT_SIZE_MIN + 15) / 16 * 16) / 1024
 
 /-! ## What is really allocated (bytes) -/
 
@@ -89,6 +89,6 @@ def lzmaDecAllocs (dict lc lp : Nat) : List Nat :=
 
 /-- heap allocations of `LZMA2Reader::new(.., dict, None)` plus the decoder created by the first chunk -/
 def lzma2DecAllocs (dict lc lp : Nat) : List Nat :=
-  [ (min dict Consts.DICT_SIZE_MAX + 15) / 16 * 16, Consts.R_COMPRESSED_SIZE_MAX - 5, 0x600 * 2 ^ (lc + lp) ]
+  [ (max (min dict Consts.DICT_SIZE_MAX) Consts.DICT_SIZE_MIN + 15) / 16 * 16, Consts.R_COMPRESSED_SIZE_MAX - 5, 0x600 * 2 ^ (lc + lp) ]
 
 end LzmaVerif.Mem
